@@ -19,8 +19,9 @@ def pRho : P (Option Rat) := pOpt pRat
 
 def showQubo (d : MPData) (suff : Rat) (feas : Bool) (rho? : Option Rat) : String :=
   let rho := rho?.getD (defaultRho suff feas)
-  if !d.wellShaped then "err:shape" else
-  s!"ok {d.n} {showRat rho} | {showMat (tabulate2 d.n d.n (d.quboQ rho feas))} | {showRat (d.quboK rho)}"
+  match d.getQubo suff feas rho? with
+  | .error _ => "err:shape"
+  | .ok (Q, k) => s!"ok {d.n} {showRat rho} | {showMat (tabulate2 d.n d.n Q)} | {showRat k}"
 
 /-- `test_feasibility` on a list of vectors: `viol-rows | vio_q | nnz` per vector -/
 def showTF (d : MPData) (xs : List (List Rat)) : String :=
